@@ -51,6 +51,17 @@ CLAIMED = {
     'C16': _cache('Clauses C16.*: a raising call leaves every observable unchanged and re-raises the same object after one evaluation; '
                   'safe decorators fall back to plain evaluation for unkeyable arguments.', '4 (C16)'),
     'C18': _cache('Clauses C18.*: key() is the storage key, lookup() returns the resident value or KeyError, both are pure; with ignore/tol variants.', '4 (C18)'),
+    'C03': ('dict', 'model_checking',
+            'C03.*: every mapping method returns what a dict holding the same contents returns, raises KeyError exactly when a dict '
+            'does, leaves the contents a dict would have, never touches an archive stored under another name, a failed operation '
+            'changes nothing and leaves the archive usable, len/keys agree with the contents, copy(name) is equal and independent, == '
+            'compares contents, the null archive discards writes. DictP is the dict; DictImpl models how each archive family implements '
+            'the protocol on its storage (whole-file read-modify-write, one directory per key named by _fname, SQL rows with history) '
+            'and TLC checks it refines DictP exhaustively within bounds; TLC-generated and random operation sequences are replayed on '
+            'every constructible archive configuration x key set x value set and TLC judges every recorded step (DictTrace).', '4 (C03)',
+            'trusted: TLC, harness/dict_driver.py (id <-> key/value mapping, read-back through items()); 4 keys per key set, 3 '
+            'locations; HDF5/sqlalchemy backends and numpy memory-mapping absent',
+            'TLA+ layer P/I refinement by TLC + trace validation of replayed TLC behaviours'),
     'C12': ('round', 'model_checking',
             'C12.*: calls whose arguments round to identical trees share a key (and the second is a hit), calls that round to '
             'unequal trees never do, the function receives the caller\'s original arguments, tol=None is the identity, rounding '
